@@ -228,6 +228,17 @@ def run(ck):
         through_mutated_proto = h.risky or any(h.protos.get(i) in h.proto_mutated for i in receivers)
         if through_mutated_proto and (on["completion"].startswith("panic index out of bounds") or on["completion"] == off["completion"]):
             site = "ic-prototype-entry-stale"
+        else:
+            # decisive attribution: with entries for prototype properties switched off (hook) and everything else cached,
+            # does the history behave like the uncached run? then only prototype entries are involved (the recorded finding)
+            src3 = "//// x ic=2 budget=20000000\n" + PRELUDE + "\n".join(h.lines) + "\n"
+            rc3, out3, _ = ck.run_bin(bins["trace"], input=src3)
+            try:
+                j3 = json.loads(out3.split("\n")[0])
+                if j3["out"] == off["out"] and j3["completion"] == off["completion"]:
+                    site = "ic-prototype-entry-stale"
+            except (ValueError, IndexError):
+                pass
         ck.fail_input({"site": site, "input": h.lines, "expected": {"out": off["out"][k:k + 2], "completion": off["completion"]},
                        "actual": {"out": on["out"][k:k + 2], "completion": on["completion"]},
                        "oracle": "the same history with the inline caches switched off"})
